@@ -39,7 +39,7 @@ use crate::chunks::{
     McalChunk, MclyChunk, MddfChunk, MmdxChunk, MmidChunk, ModfChunk, MtexChunk, MtxpChunk,
     MwidChunk, MwmoChunk,
 };
-use crate::error::Result;
+use crate::error::{AdtError, Result};
 use crate::version::AdtVersion;
 
 /// Parse Cataclysm+ texture file (_tex0.adt or _tex1.adt).
@@ -343,17 +343,15 @@ fn parse_mcnk_texture_chunks<R: Read + Seek>(
             match subchunk_header.id {
                 ChunkId::MCLY => {
                     // Read chunk data into buffer to prevent reading into next chunk
-                    let mut chunk_data = vec![0u8; subchunk_header.size as usize];
-                    reader.seek(SeekFrom::Start(current_pos))?;
-                    reader.read_exact(&mut chunk_data)?;
+                    let chunk_data =
+                        read_mcnk_subchunk_data(reader, &subchunk_header, current_pos, mcnk_end)?;
                     let mut cursor = std::io::Cursor::new(chunk_data);
                     layers = Some(MclyChunk::read_le(&mut cursor)?);
                 }
                 ChunkId::MCAL => {
                     // Read chunk data into buffer to prevent reading into next chunk
-                    let mut chunk_data = vec![0u8; subchunk_header.size as usize];
-                    reader.seek(SeekFrom::Start(current_pos))?;
-                    reader.read_exact(&mut chunk_data)?;
+                    let chunk_data =
+                        read_mcnk_subchunk_data(reader, &subchunk_header, current_pos, mcnk_end)?;
                     let mut cursor = std::io::Cursor::new(chunk_data);
                     alpha_maps = Some(McalChunk::read_le(&mut cursor)?);
                 }
@@ -373,6 +371,35 @@ fn parse_mcnk_texture_chunks<R: Read + Seek>(
     }
 
     Ok(mcnk_textures)
+}
+
+/// Read the data of a sub-chunk of a split-file MCNK container.
+///
+/// The size in the sub-chunk header is checked against the bytes left in the enclosing
+/// MCNK chunk (whose own extent was validated against the file size during discovery)
+/// before a buffer of that size is allocated.
+fn read_mcnk_subchunk_data<R: Read + Seek>(
+    reader: &mut R,
+    subchunk_header: &ChunkHeader,
+    data_pos: u64,
+    mcnk_end: u64,
+) -> Result<Vec<u8>> {
+    let available = mcnk_end.saturating_sub(data_pos);
+    if u64::from(subchunk_header.size) > available {
+        return Err(AdtError::ChunkParseError {
+            chunk: subchunk_header.id,
+            offset: data_pos,
+            details: format!(
+                "sub-chunk size {} exceeds the {} bytes left in its MCNK chunk",
+                subchunk_header.size, available
+            ),
+        });
+    }
+
+    let mut chunk_data = vec![0u8; subchunk_header.size as usize];
+    reader.seek(SeekFrom::Start(data_pos))?;
+    reader.read_exact(&mut chunk_data)?;
+    Ok(chunk_data)
 }
 
 /// Parse MCNK chunks from object file to extract object references.
